@@ -125,3 +125,40 @@ def fill {β : Type} (g : Nat → β) (init : List β) (order : List Nat) : List
   order.foldl (fun t i => t.set i (g i)) init
 
 end FastTicc.MainLoop
+
+namespace FastTicc.MainLoop
+
+/-! ### the optimise phase as K per-cluster tasks (graphical_lasso.py:79-162) -/
+
+/-- `optimize_markov_random_fields`: submit one task per cluster (cluster order), gather with
+`get()` in cluster order, then store the results. -/
+def optFromTasks {σ ε β : Type} (K : Nat) (task : σ → Nat → Except ε β) (store : σ → List β → σ) :
+    σ → Except ε σ :=
+  fun s => (gather ((List.range K).map (task s))).map (store s)
+
+/-! ### the ADMM outer loop (solver.py:100-127) -/
+
+/-- one ADMM state: `(x, z, u)`. -/
+structure Admm (ν : Type) where
+  x : ν
+  z : ν
+  u : ν
+
+/-- `for iteration in range(max_iterations)`: x, z, u updates; the stopping rule is evaluated only
+for `iteration > 0`; returns the last `x` (not `z`) and the number of iterations performed.
+`step` is one sweep of the three updates (`z_old` is the previous `z`), `stop` the stopping rule
+(`check_convergence(args, u, x, z, z_old)`), `rescale` the optional rho update applied when the
+rule did not fire. -/
+def admmLoop {ν : Type} (step : Admm ν → Admm ν) (stop : Admm ν → ν → Bool) (rescale : Admm ν → ν → Admm ν) :
+    (fuel iteration : Nat) → Admm ν → ν × Nat
+  | 0, it, s => (s.x, it)
+  | fuel + 1, it, s =>
+    let s' := step s
+    if 0 < it ∧ stop s' s.z then (s'.x, it + 1)
+    else admmLoop step stop rescale fuel (it + 1) (if 0 < it then rescale s' s.z else s')
+
+def admmRun {ν : Type} (step : Admm ν → Admm ν) (stop : Admm ν → ν → Bool) (rescale : Admm ν → ν → Admm ν)
+    (maxIter : Nat) (zero : ν) : ν × Nat :=
+  admmLoop step stop rescale maxIter 0 ⟨zero, zero, zero⟩
+
+end FastTicc.MainLoop
